@@ -4,12 +4,23 @@ import json, os, subprocess, collections
 BASE = "/verif/seeded"
 head = subprocess.check_output(["git", "-C", "/repo", "rev-parse", "--short", "HEAD"], text=True).strip()
 matrix = collections.defaultdict(list)
-tsv = os.path.join(BASE, "RESULTS.tsv")
-if os.path.exists(tsv):
+# later files override earlier rows of the same (seed, check): W2b re-ran the seeds whose first run overlapped an edit of /verif
+rows_by_key = collections.OrderedDict()
+for name in ("RESULTS.tsv", "RESULTS_W2.tsv", "RESULTS_W2b.tsv", "RESULTS_W3.tsv"):
+    tsv = os.path.join(BASE, name)
+    if not os.path.exists(tsv):
+        continue
+    fresh = set()
     for line in open(tsv):
         t = line.rstrip("\n").split("\t")
         if len(t) >= 3 and t[0] != "DONE":
-            matrix[t[0]].append({"check": t[1], "result": t[2], "first_violation": t[3] if len(t) > 3 else ""})
+            key = (t[0], t[1])
+            if key in rows_by_key and key not in fresh:
+                del rows_by_key[key]
+            fresh.add(key)
+            rows_by_key.setdefault(key, []).append({"check": t[1], "result": t[2], "first_violation": t[3] if len(t) > 3 else ""})
+for (sid, _), rows in rows_by_key.items():
+    matrix[sid] += rows
 PORTED = {"C17-1": "rem.rs guard rewritten after fix d5ae55a", "C14-2": "to_int arm rewritten after fix 3f1f747", "C18-3": "transpiler Instruction::repr rewritten after fix 03a4aab"}
 RETIRED = {"C18-2": "valid against the pinned tree up to f4acc69 (confirmed there: demo fails with the change); fix 03a4aab makes both writers quote every argument, so an unquoted comma no longer occurs and the change no longer breaks C18 on the repaired tree (re-verification: demo passes with the change)"}
 for sid in sorted(os.listdir(BASE)):
@@ -21,6 +32,9 @@ for sid in sorted(os.listdir(BASE)):
     m["seed_id"] = sid
     m["breaks_property"] = m.get("property", sid.split("-")[0])
     log = "/tmp/wt/verify_logs/%s.re.log" % sid
+    if not os.path.exists(log):
+        log = "/tmp/wt/verify_logs/%s.log" % sid
+    prev = m.get("confirmed_by_me") or {}
     res = ""
     if os.path.exists(log):
         for l in open(log, errors="replace"):
@@ -28,8 +42,8 @@ for sid in sorted(os.listdir(BASE)):
                 res = l.strip()
     m["confirmed_by_me"] = {
         "procedure": "tools/verify_seed.sh in a scratch worktree of /repo (/tmp/wt/verify): clean build; demo.sh on the clean tree must pass; git apply patch.diff; cargo build; cargo nextest run --workspace (193 tests) must pass; demo.sh must fail; revert",
-        "against_repo_head": head if res else "earlier HEAD",
-        "result": res or "confirmed at seeding time",
+        "against_repo_head": prev.get("against_repo_head") or ("29ab41b" if sid.startswith("W2-") else head if res else "earlier HEAD"),
+        "result": res or prev.get("result") or "confirmed at seeding time",
     }
     if sid in PORTED:
         m["ported"] = "patch.diff re-created on the repaired tree (same change, same demonstration): " + PORTED[sid]
